@@ -717,8 +717,20 @@ pub fn one_case(ctx: &Ctx, case: u64, l: &mut Local) {
                 let h = api::holder_new(&t, fmt);
                 p.judge("SDJWTHolder::new", &h, &input);
                 if let Outcome::Ok(mut h) = h {
-                    let sel = match r.below(3) {
+                    let sel = match r.below(4) {
                         0 => gen::select_all(&payload),
+                        // `true` for every member and every array element at the top two levels (placeholders
+                        // and digest lists included)
+                        3 => {
+                            fn shallow(v: &Value, depth: u32) -> Value {
+                                match v {
+                                    Value::Object(m) if depth > 0 => Value::Object(m.iter().map(|(k, c)| (k.clone(), shallow(c, depth - 1))).collect()),
+                                    Value::Array(a) if depth > 0 => Value::Array(a.iter().map(|c| shallow(c, depth - 1)).collect()),
+                                    _ => Value::Bool(true),
+                                }
+                            }
+                            shallow(&payload, 1 + r.below(2) as u32)
+                        }
                         1 => rand_json(&mut r, 3),
                         _ => {
                             // name every member the DISCLOSURES claim to carry (reserved names included),
